@@ -12,9 +12,19 @@ CHECKS = {
    "Generated tag trees, all-i64-biased integers, typed Tag trees, valid BER with generated non-minimal length forms and mutated byte strings are compared with an independent BER reader/writer (canonical-encoding equality, parse(encode)=id with trailing bytes, shortest two's complement). Exploration is the right level: the domain is unbounded (all trees / all i64) and the oracle is exact, so volume + boundary-biased generation is what finds defects here.",
    "Trusted base: harness/src/ber.rs (independent reader/writer, unit-tested against lber's own vectors), proptest. Tag numbers 0..30 only.",
    "DESIGN.md §3 C07", "harness"),
+ "C08": ("exploration",
+   "property-based testing (proptest): generated filter ASTs rendered with generated escaping vs an independent strict RFC 4515 recogniser, RFC 4511 Filter decoder and canonical printer (metamorphic canon(s)==print(decode(encode))); mutation lane for rejection; exhaustive short strings",
+   "Four executable clauses on every generated string: strict-grammar strings must be accepted with the AST they denote, provably malformed strings must be rejected, every accepted string must print back canonically to itself, and nothing may panic. Generated ASTs (depth<=5), single-malformation mutants, token/skeleton strings, random bytes, and an exhaustive enumeration of all strings up to length 4 (6 in thorough) over a 12-symbol alphabet.",
+   "Trusted base: harness/src/filter.rs (strict recogniser, decoder, printer; self-checked against each generated AST and the RFC 4515 examples). Nesting bounded; ':DN' case variants are treated as ambiguous.",
+   "DESIGN.md §3 C08, Appendix E", "harness"),
+ "C09": ("exploration",
+   "property-based testing (proptest) + exhaustive enumeration of short ASCII strings: escape-then-parse round trip judged by independent strict RFC 4515 / RFC 4514 readers",
+   "For each generated string v, 12 filter templates with ldap_escape(v) and 5 DN templates with dn_escape(v) are read by independent strict readers (and by parse_filter + harness BER decoder) and must keep their structure with value == v; unescape round trip; identity on strings needing no escaping. All ASCII strings of length <=2 (<=3 thorough) are enumerated exhaustively.",
+   "Trusted base: harness/src/dn.rs and harness/src/filter.rs strict readers (unit-tested on the RFC examples).",
+   "DESIGN.md §3 C09, Appendix F", "harness"),
 }
 
-NOT_YET = {}  # filled below for every property without a check
+NOT_YET = {}
 
 def main():
     props = [json.loads(l) for l in open(os.path.join(ROOT, "properties.jsonl"))]
